@@ -30,6 +30,8 @@ ALL_CFGS = [(u, r) for u in (False, True) for r in (False, True)]
 FORMATS = ["df0", "df4", "df5", "df11", "df16", "df20", "df21",
            "tc0", "tc1", "tc2", "tc3", "tc4", "tc5", "tc8", "tc9", "tc11", "tc18", "tc19.1", "tc19.2", "tc19.3",
            "tc19.0", "tc20", "tc22", "tc23", "tc28", "tc29", "tc31", "df18", "df24", "df19"]
+# every other value of the 5-bit format field that has no decoder of its own (their rows are keyed by bits 9-32)
+FORMATS_OTHER = ["df22", "df25", "df28", "df31"]
 
 def rand_ac13(rng, q1_prob=0.8):
     if rng.random() < q1_prob:
